@@ -751,9 +751,9 @@ func (e *Exec) havocLike(old Value, name string) Value {
 	case *IfaceV:
 		return e.fresh(v.Typ, name)
 	case *MapV:
-		return &MapV{ID: c.Fresh(name, smt.Int), Typ: v.Typ}
+		return &MapV{ID: c.Fresh(name, refSort), Typ: v.Typ}
 	case *FuncV:
-		return &FuncV{ID: c.Fresh(name, smt.Int)}
+		return &FuncV{ID: c.Fresh(name, refSort)}
 	}
 	e.refuse("havoc of %T", old)
 	return nil
